@@ -72,6 +72,7 @@ def is_wide_signed_arith(site):
 def rule_panic_free(ctx, rid, roots, what, scope_prefixes=None, exclude=None, floor=1, skip_wide_signed=False):
     """every potentially panicking operation reachable from `roots` is discharged by a guard rule or audited"""
     F = ctx.F
+    pn.register_closure_items(F)
     ctx.rule(rid, "no reachable panic from %s: every assert / unwrap / indexing / explicit panic in reachable workspace code is discharged by a recognised guard or individually audited" % what)
     cg = callgraph(F)
     missing = [r for r in roots if r not in F.fns]
